@@ -3,7 +3,7 @@
    every guardian set, table, state and history; nothing is bounded.  "Valid signature of a over d" is recover d s = Some a. *)
 From Coq Require Import List ZArith Lia Bool Arith.
 From Coq Require Import Strings.Byte.
-From WH Require Import lib.Bytes gen.Extracted model.Vaa model.Processor model.P2PVerify proofs.ObsAuthProofs proofs.P2PVerifyProofs.
+From WH Require Import lib.Bytes gen.Extracted gen.ExtractedP2P model.Vaa model.Processor model.P2PVerify proofs.ObsAuthProofs proofs.P2PVerifyProofs.
 Import ListNotations.
 Open Scope Z_scope.
 
